@@ -120,6 +120,39 @@ def gen_case(rng, npools=1, style="mix", stop=True, cancels=True):
     return {"clock": str(clock), "pools": cfgs, "ops": ops, "kind": "pool%d_%s" % (npools, style), "stream": True}
 
 
+def gen_keepalive_stop(rng):
+    """Pools whose workers have a keep-alive time (and possibly a minimum size): all scheduling happens
+    inside stop, where idle workers must retire at once whatever their keep-alive says. (A pass on a
+    RUNNING pool with idle keep-alive workers naps in place until the keep-alive runs out, which the
+    virtual clock cannot serve: those histories are left out.)"""
+    uid = Uid()
+    clock = rng.choice([0, 10**6, 10**9])
+    mx = rng.choice([1, 2, 2, 4, 65536])
+    mn = rng.choice([0, 0, 1, 2])
+    keep = rng.choice([1, 5, 3600]) * 10**9
+    ops, ntask = [], 0
+    for _ in range(rng.randint(1, 4)):
+        style = rng.choice(["plain", "mix"])
+        body = [i for i in gen_task(rng, uid, clock, style) if i["i"] not in ("tick",)]
+        ops.append({"op": "submit", "p": 0, "body": body, "prio": None if rng.random() < 0.6 else str(rng.choice([0, 1, -1]))})
+        ntask += 1
+        if rng.random() < 0.2:
+            ops.append({"op": "cancel", "t": rng.randrange(ntask)})
+        if rng.random() < 0.15:
+            ops.append({"op": "clean", "p": 0, "t": rng.randrange(ntask)})
+    ops.append({"op": "running", "p": 0})
+    ops.append({"op": "stop", "p": 0, "dur": str(rng.choice([20, 50]) * 10**6)})
+    ops.append({"op": "state", "p": 0})
+    ops.append({"op": "running", "p": 0})
+    for t in range(ntask):
+        ops.append({"op": "wait", "p": 0, "t": t})
+    ops.append({"op": "stop", "p": 0, "dur": str(5 * 10**6)})
+    ops.append({"op": "state", "p": 0})
+    ops.append({"op": "running", "p": 0})
+    ops.append({"op": "submit", "p": 0, "body": [{"i": "return", "v": "1"}], "prio": None})
+    return {"clock": str(clock), "pools": [[mn, mx, keep]], "ops": ops, "kind": "keepalive_stop", "stream": True}
+
+
 def gen_late_cancel(rng):
     """Cancels aimed at tasks that are no longer in progress (finished, result taken, result declared
     unwanted) while other tasks are: the other tasks must not notice."""
